@@ -277,6 +277,13 @@ var c23Programs = []string{
 	"gauge g\n/^(\\d+)$/ {\n  g = $1 - -1\n}\n",
 	"gauge f\n/^(\\d+\\.\\d+)$/ {\n  f = $1 * 1e-7 + 2.50\n}\n",
 	"counter \"quoted-name\"\n",
+	// backslashes in string literals and exported names: at the end, doubled, before a quote
+	"text t\n/x/ {\n  t = \"C:\\\\logs\\\\\"\n}\n",
+	"text t\n/x/ {\n  t = \"\\\\\\\\host\\\\share\"\n}\n",
+	"text t\n/x/ {\n  t = \"say \\\\\\\"hi\\\\\\\"\"\n}\n",
+	"text t\n/x/ {\n  t = \"a\\\\b\" + \"\\\\\"\n}\n",
+	"counter c as \"dir\\\\\"\n/x/ {\n  c++\n}\n",
+	"counter c\n/(\\S+)/ {\n  $1 == \"\\\\\\\\\" {\n    c++\n  }\n}\n",
 	"timer t\n/^(\\d+)$/ {\n  t = $1\n}\n",
 	"counter c\n/^(\\S+) (\\S+)/ {\n  $1 =~ /^f/ && $2 !~ \"ba+r\" {\n    c++\n  }\n}\n",
 	"counter c\n# a comment\n/x/ {  # trailing\n  c++\n}\n",
@@ -358,7 +365,7 @@ func genExprAST(r *rand.Rand, depth int) ast.Node {
 		case 1:
 			return &ast.FloatLit{F: exprFloats[r.Intn(len(exprFloats))]}
 		case 2:
-			return &ast.StringLit{Text: []string{"", "a", "a b", "q\"uote", "back\\slash", "é"}[r.Intn(6)]}
+			return &ast.StringLit{Text: []string{"", "a", "a b", "q\"uote", "back\\slash", "é", "C:\\\\logs\\\\", "\\\\\\\\host", "x\\\\\"y"}[r.Intn(9)]}
 		case 3:
 			return &ast.CaprefTerm{Name: fmt.Sprint(r.Intn(4)), IsNamed: false}
 		case 4:
